@@ -14,33 +14,33 @@ CLAIMS = {
     "C01": (f"{IDX} + {STR}",
             "Shift-invariance structure of the three realisation routines (one matrix, one shift = channel count, up/down roles, QR or pinv form, "
             "C = first block), one truncation index per order, SSI_poles slot discipline, and the normal form of the z->s pole map; all as polynomial/"
-            "structural identities valid for every block-row and channel count.  Calling layer (shared with C09): the pole tables of SSI_poles reach the result table of the same kind (value provenance), hard-criteria limits are bound to the parameters of their names, criterion masks are applied as boolean selections. Does not decide that identified values equal the system's. The Hankel builders for the two methods the property names (shared with C12): one lag per block with uniform weights, br+1 block rows/columns, the data-driven matrix cut from the LQ factor below the past rows."),
+            "structural identities valid for every block-row and channel count.  Calling layer (shared with C09): the pole tables of SSI_poles reach the result table of the same kind (value provenance), hard-criteria limits are bound to the parameters of their names, criterion masks are applied as boolean selections. Does not decide that identified values equal the system's. The Hankel builders for the two methods the property names (shared with C12): one lag per block with uniform weights, br+1 block rows/columns, the data-driven matrix cut from the LQ factor below the past rows. ac2mp: mode shapes = C times the RIGHT eigenvectors and the eigenvector slots handed on are (left, right), read off the output layout of the eigen-solver for the left= setting in force. A contiguous block taken in place of the listed reference channels must be guarded by an element-wise comparison with the ramp."),
     "C02": (f"{DEG} + {SEQ} + {STR}",
             "merge_mode_shapes is homogeneous of degree 1 in the first setup's scale and 0 in every other setup's (the factor is applied in the right "
             "direction), MSF(a,b) ~ b/a, merged Fn/Xi are means over the setup axis and their dispersion a population std divided by the mean; row-order "
-            "signature agreement with the name flattening.  Mode shapes reach the merge and are merged without a cast to a real dtype. Optimality on noisy shapes and complex factors are not decided."),
+            "signature agreement with the name flattening.  Mode shapes reach the merge and are merged without a cast to a real dtype. Optimality on noisy shapes and complex factors are not decided. Reference lists that pass through a validating helper keep their listed order (no sort / unique / set between the argument and what is stored)."),
     "C03": (f"{DEG} + {IDX} + {SEQ}",
             "SSI_multi_setup re-bases every setup on the first setup's reference block: the global observability matrix is homogeneous in the first "
             "setup's gain alone for cov_mm/cov_R/dat, hence poles independent of per-setup amplitudes; reference/roving index maps and block interleaving "
-            "as index identities.  The split is re-applied to the dataset list that is current after every preprocessing step. Exact identification is not decided."),
+            "as index identities.  The split is re-applied to the dataset list that is current after every preprocessing step. Exact identification is not decided. Shortcut rule: a slice taken in place of the listed reference channels needs a guard that compares the list element by element with the ramp of the slice."),
     "C04": (f"{DEG} + {BLK} + {STR}",
             "Every block of the merged PreGER spectrum has the support of the mean reference block (transmissibility of degree 0 in its setup's gain); "
             "nxseg/method/pov reach the estimator and scipy; the returned grid is the estimator's; typed block structure of the merged matrix (rows = references then every setup's roving sensors, "
             "columns = references, each roving block = S_mov,ref . inv(S_ref,ref) . mean S_ref,ref, no product/stack of mismatching channel groups). "
-            "Equality with the single-setup matrix is not decided."),
+            "Equality with the single-setup matrix is not decided. An option with a falsy legitimate value (pov = 0) is not dropped on the way through option dictionaries filled by conditional stores; the estimator's window resolves to 'hann' when the library's defaults are left alone."),
     "C05": (f"{DEG} + {STR}",
             "z->s map normal form of ac2mp_poly (sibling of ssi.ac2mp), joint blanking of unstable eigenvalues and eigenvector columns, dimensionless basis "
-            "function, coefficient degrees (alpha ~ 1, beta ~ S), NaN padding of the four tables. basis function sampled on Nf lines from 0 to Nyquist inclusive (rational identity on the grid spacing).  Constraint block: alpha = [I ; X] / [X ; I] with the identity at the constrained end, un-permuted. pLSCF.result: pole tables of the same kind as returned by pLSCF_poles, every criterion reaches them, masks used as boolean selections. Normal equations/companion form correctness not decided. run() hands plscf.pLSCF the basis-function sign of the estimator in the run parameters (-1 periodogram, +1 correlogram)."),
+            "function, coefficient degrees (alpha ~ 1, beta ~ S), NaN padding of the four tables. basis function sampled on Nf lines from 0 to Nyquist inclusive (rational identity on the grid spacing).  Constraint block: alpha = [I ; X] / [X ; I] with the identity at the constrained end, un-permuted. pLSCF.result: pole tables of the same kind as returned by pLSCF_poles, every criterion reaches them, masks used as boolean selections. Normal equations/companion form correctness not decided. run() hands plscf.pLSCF the basis-function sign of the estimator in the run parameters (-1 periodogram, +1 correlogram). No module-level table and no memoised value (functools.lru_cache) is changed in place by the identification (out=, item stores, augmented assignments)."),
     "C06": (STR,
             "Band limits on one grid, first/second singular-value ratio over one slice, arg-max selection, slice-origin re-basing of the picked line for "
-            "frequency and vector alike, dominant vector, writer/reader agreement on the singular-vector layout. hand-over of result.S_val/S_vec/freq and of THIS call's band from FDD.mpe / mpe_from_plot to FDD_mpe (stale attribute reads are violations). MAC=1 and unitarity are not decided. The first stage of EFDD/FSDD (the same peak search) is given the DF1 of the call on the stored spectrum and grid; methods are judged per exact algorithm class."),
+            "frequency and vector alike, dominant vector, writer/reader agreement on the singular-vector layout. hand-over of result.S_val/S_vec/freq and of THIS call's band from FDD.mpe / mpe_from_plot to FDD_mpe (stale attribute reads are violations). MAC=1 and unitarity are not decided. The first stage of EFDD/FSDD (the same peak search) is given the DF1 of the call on the stored spectrum and grid; methods are judged per exact algorithm class. The returned frequencies are not stored in a table that takes its dtype from the selected frequencies as the caller typed them."),
     "C07": (DEG,
             "The array handed to the inverse FFT (the SDOF bell) has degree 1 in the spectral matrix for EFDD and FSDD, Fn/Xi have degree 0 in it and the "
-            "right time unit; no dimensional log/exp. Closed forms of the logarithmic-decrement fit; hand-over of spectrum, grid, dt, estimator and this call's DF1/DF2/fit parameters from EFDD.mpe / mpe_from_plot (through helpers and **kwargs); no rounding of dimensional quantities. The 2.5 %/15 % accuracy is not decided."),
+            "right time unit; no dimensional log/exp. Closed forms of the logarithmic-decrement fit; hand-over of spectrum, grid, dt, estimator and this call's DF1/DF2/fit parameters from EFDD.mpe / mpe_from_plot (through helpers and **kwargs); no rounding of dimensional quantities. The 2.5 %/15 % accuracy is not decided. EFDD_mpe and its helpers change none of their array arguments in place - also through helpers that hand back (a view of) their argument; no table with a caller-typed dtype."),
     "C08": (f"{DEG} + def-use rule",
             "For all 30 algorithm/method configurations every run()/mpe() output is a homogeneous function of the data gain (degree 0) and of the time "
             "unit (frequencies 1/s, damping/shapes 1), no decision on the way is scale dependent, each normalisation divides a vector by its own "
-            "largest-magnitude component.  Extraction through mpe() of the SSI classes at explicit orders (int and per-mode list) is part of the degree analysis (a closeness band in absolute units is a violation). Permutation/rotation equivariance is not decided. Time-unit clause, FDD family: the half-widths (quantities in Hz) and selected frequencies of a request are the ones the extraction works with (not the default, not those of an earlier request)."),
+            "largest-magnitude component.  Extraction through mpe() of the SSI classes at explicit orders (int and per-mode list) is part of the degree analysis (a closeness band in absolute units is a violation). Permutation/rotation equivariance is not decided. Time-unit clause, FDD family: the half-widths (quantities in Hz) and selected frequencies of a request are the ones the extraction works with (not the default, not those of an earlier request). Shortcut rule for reference-channel selections; every routine reachable from run/mpe hands its options to helpers that repeat them with the same default."),
     "C09": ("dependence/taint interpretation + structural rules",
             "Each criterion of the run-parameter defaults reaches every pole table of the result (all six classes, criteria enabled), all tables share one "
             "criteria set, hc keys are bound to the implementing parameters, the keep-conditions have the stated sense, applymask keeps/NaNs correctly. "
@@ -52,37 +52,37 @@ CLAIMS = {
     "C11": (STR,
             "SSI_mpe/pLSCF_mpe (int, list, find_min): closeness test against the loop's own frequency, all values of a mode from one (row, column) with "
             "column = requested order and row = nearest pole, appends guarded by the test, slots fed by the table of the same kind, first-qualifying-order "
-            "scan, and the hand-over in the four mpe methods. Absolute-vs-relative band of find_min and pLSCF's find_min loop are not decided."),
+            "scan, and the hand-over in the four mpe methods. Absolute-vs-relative band of find_min and pLSCF's find_min loop are not decided. An option (rtol) the extraction routine shares with a helper by name and default is handed to it wherever the helper's result that depends on it is used; no table with a caller-typed dtype."),
     "C12": (f"{WIN} + {DEG}",
             "Lag/length/weight/bounds of every block of the Hankel (cov_mm, dat) and Toeplitz (cov_R) matrices as polynomial identities in (br, channels, "
             "record length): lag i+c+1 resp. br+i-c, equal lengths, uniform weights, windows inside the record, br+1 x br+1 blocks, all-channel rows and "
-            "reference columns, R-factor block of the dat method; bilinearity by degree analysis. the method given in the run parameters (class default only as fallback) reaches the Hankel builder. Block stacks built by sliding-window views or index-grid gathers are followed; a reversal of all rows of a block stack (channels reversed inside the blocks) is a violation. The projection identity is not decided."),
+            "reference columns, R-factor block of the dat method; bilinearity by degree analysis. the method given in the run parameters (class default only as fallback) reaches the Hankel builder. Block stacks built by sliding-window views or index-grid gathers are followed; a reversal of all rows of a block stack (channels reversed inside the blocks) is a violation. The projection identity is not decided. The routine is analysed for both ways the references can be given (as an array, as a list of channel numbers): a count taken before the reference rows are selected is a violation. Shortcut rule for contiguous reference blocks."),
     "C13": (f"{DEG} + {STR}",
             "Frequency grid unit and spacing, bilinearity of the spectral matrix in (data, reference data), operand pairing/axes of the csd calls (fixes the "
-            "(i,j) pairing and the conjugation convention), overlap/segment/window keywords. every run() that calls SD_est hands it run_params.nxseg / method_SD / pov and its own dt - through helpers and option dictionaries; an option dropped by a truthiness filter (pov = 0.0) is a violation. Welch equivalence and tolerances are not decided. The estimators change no module-level table in place (an estimate does not depend on the options of earlier calls)."),
+            "(i,j) pairing and the conjugation convention), overlap/segment/window keywords. every run() that calls SD_est hands it run_params.nxseg / method_SD / pov and its own dt - through helpers and option dictionaries; an option dropped by a truthiness filter (pov = 0.0) is a violation. Welch equivalence and tolerances are not decided. The estimators change no module-level table in place (an estimate does not depend on the options of earlier calls). A periodogram that cuts its own segments moves on by nperseg - noverlap = nxseg - nxseg*pov (stride expressed in SD_est's parameters through every helper)."),
     "C14": (f"{DEG} (inductive invariants per mutator) + {STR}",
             "The representation invariant (dt*fs=1, duration = samples*dt, counts = extents of the stored arrays, data = split(stored datasets)) is established "
             "by the constructors and preserved by every mutator from an arbitrary invariant state, hence after every call sequence; post-conditions of "
-            "decimate/detrend/filter/rollback/add_algorithms; keywords the user did not give reach scipy with scipy's own defaults, axis = 0 observed at the abstract call, no rounding (//, int, round) of a dimensional quantity; kwargs forwarding (no truth-test default on a user option); the reference/roving split keeps the listed order and is re-applied to the current dataset list; no in-place effect on user or initial arrays. The preprocessing methods change no module-level or class-level table in place."),
+            "decimate/detrend/filter/rollback/add_algorithms; keywords the user did not give reach scipy with scipy's own defaults, axis = 0 observed at the abstract call, no rounding (//, int, round) of a dimensional quantity; kwargs forwarding (no truth-test default on a user option); the reference/roving split keeps the listed order and is re-applied to the current dataset list; no in-place effect on user or initial arrays. The preprocessing methods change no module-level or class-level table in place. Tables of defaults whose entries are dictionaries are followed through .get()/[k]: an entry taken out and stored into is a change of the module-level table. Shortcut rule for the split."),
     "C15": (f"{STR} over the resolved call graph",
             "Gate order in run_by_name, _pre_run conditions, every mpe/mpe_from_plot override gated before its first store, no in-place effect on shared "
             "data and no nondeterministic source in any function reachable from run/mpe, fresh result objects, instance-only state, PoSER validation "
-            "structure (ValueError only, count guard, checked yields, eager exhaustion), exact (not isinstance) type comparison; picklable instance attributes. No in-place effect on the instance's run/mpe parameters (through aliases, shallow copies, helpers) and none on module-level or class-level containers in any function reachable from run/mpe; the PoSER type comparison ranges over every algorithm of every setup (no zip with the names, no slice)."),
+            "structure (ValueError only, count guard, checked yields, eager exhaustion), exact (not isinstance) type comparison; picklable instance attributes. No in-place effect on the instance's run/mpe parameters (through aliases, shallow copies, helpers) and none on module-level or class-level containers in any function reachable from run/mpe; the PoSER type comparison ranges over every algorithm of every setup (no zip with the names, no slice). Memoised values (lru_cache) count as shared state; Model.model_validate(obj) is not a new object when obj is kept in a container of the instance."),
     "C16": (STR,
             "Per dialog variant: the frequency list and its partner list receive the same mutation in every block of every reachable method (so pairs "
-            "survive any click sequence), no list arithmetic, pick = nearest order then nearest retained pole, deselect-nearest by frequency, result tuple."),
+            "survive any click sequence), no list arithmetic, pick = nearest order then nearest retained pole, deselect-nearest by frequency, result tuple. The result tuple made before the dialog runs follows the selection only if no handler replaces the lists it holds (rebinding vs in-place update)."),
     "C17": (f"{IDX} + {STR}",
             "Vectorisation order of the covariance factor vs the Kronecker forms of the propagation, orientation of the singular-vector selections, block "
             "estimate scaling as a polynomial identity, 1/sqrt(nb(nb-1)) scaling, variance slot; order-n part of the sensitivity blocks by the Kronecker selection (not a leading-rows slice); result.Fn_poles_cov receives the frequency variances of the pole routine. Equality with a directional derivative is not decided."),
     "C18": (f"{DEG} + {STR}",
             "Degree 0 of MAC/MPC/MPD/MCF in each argument's real scale and MSF ~ b/a; every arccos argument clipped, sqrt arguments sums of squares, "
-            "per-component quotients guarded (finite, never NaN); MAC row/column/normaliser pairing. isclose(x, 0) on a scaled quantity is a scale-dependent decision; vectorised normalisers (outer products) oriented rows = first set; MPD uses one right singular vector (also when taken as a whole row); the MAC band filter of the EFDD bell is scale-free in the reference shape. Bounds and complex-factor invariance not decided. No option of a library call inside the indicator functions is dropped by a truth test (axis=0)."),
+            "per-component quotients guarded (finite, never NaN); MAC row/column/normaliser pairing. isclose(x, 0) on a scaled quantity is a scale-dependent decision; vectorised normalisers (outer products) oriented rows = first set; MPD uses one right singular vector (also when taken as a whole row); the MAC band filter of the EFDD bell is scale-free in the reference shape. Bounds and complex-factor invariance not decided. No option of a library call inside the indicator functions is dropped by a truth test (axis=0). MAC normalisers are one number per shape (a reduction over the sensor axis), not one for the whole set (np.vdot, sum/norm without axis)."),
     "C19": (f"{STR} + {SEQ}",
             "Forward presence analysis of the sheet dictionary (every optional-sheet read guarded), zero-basing list covers all index sheets, re-indexing by "
             "the flattened sensor names of what is returned, GeometryN built keyword by keyword from the validated tables (linked through the sheet names), ValueError-only validation, attribute compatibility with the documented argument types; plot_mode (geo2) draws markers, lines and surfaces at the displaced points (through any helper); the cell-wise substitution of dfphi_map_func is dtype-safe."),
     "C20": (STR,
             "Signature conformance of every call into functions.plot, keyword binding of result fields, one flatten order with a consistent order-axis "
-            "formula scaled by step, label selections with NaN fill for frequency and damping alike, CMIF curves relative to the first singular value's maximum; the plot methods forward their own freqlim / hide_poles arguments. The tables the diagrams read carry every hard criterion (no marker for a rejected pole), dependence analysis shared with C09."),
+            "formula scaled by step, label selections with NaN fill for frequency and damping alike, CMIF curves relative to the first singular value's maximum; the plot methods forward their own freqlim / hide_poles arguments. The tables the diagrams read carry every hard criterion (no marker for a rejected pole), dependence analysis shared with C09. A branch that draws nothing is chosen by a test that looks at every label for which a sibling branch draws markers."),
 }
 
 
